@@ -1061,6 +1061,11 @@ PROFILES = {
                             "act", "cum", "seq", "einsum", "einsum", "conv", "pool", "loss"], p_hd_operand=0.06,
                 w_func=0.8, w_view=0.2, w_inplace=0.0, max_leaves=3, max_steps=3, p_const_leaf=0.15, p_seed=0.8,
                 p_nonscalar_L=0.9, p_forder_leaf=0.15),
+    # C03: forward agreement with NumPy in value, shape and dtype along whole programs with integer / float32 / float16 leaves
+    "c03": dict(functional=["bin", "bin", "un", "power", "red", "red", "matmul", "where", "join", "gathercopy", "act", "cum", "seq",
+                            "einsum", "pool"],
+                w_func=0.65, w_view=0.25, w_inplace=0.1, max_leaves=3, max_steps=8, p_const_leaf=0.3, p_int_leaf=0.3, p_f32_leaf=0.3,
+                backward=False, p_forder_leaf=0.1),
     "c04": dict(p_forder_leaf=0.25, functional=["bin", "un", "red"], w_func=0.25, w_view=0.4, w_inplace=0.35, max_leaves=2,
                 max_steps=8, backward=False, p_const_leaf=0.2, p_kw_const_view=0.08, p_kw_const_out=0.15,
                 inplace=["setitem", "setitem", "aug", "uout", "setshape"], w_misc=0.08, misc=["fail"]),
